@@ -1,5 +1,6 @@
 import Originium.Model.LSM
 import Originium.Model.LSMTie
+import Originium.Model.TableTie
 /-! # C10 — table lookup finds the newest version at or below the read timestamp
 
 For any set of versioned entries stored in any number of tables with any data-block size, looking
@@ -72,9 +73,27 @@ theorem C10_code_search_fold {T : Type} (mayContain : T → Bytes → Bool) (idx
       LSMTie.toOpt (levels.flatten.foldl (fun a th => LSMTie.upd mayContain idxLB fetchLB key th a) (LSMTie.dflt, false)) :=
   LSMTie.searchLowerBound_eq mayContain idxLB fetchLB levels key
 
+
+/-- the hand-written binary searches of `table/data.go` and `table/index.go` (translated from the Go source on every run,
+    over Go `int`s with `low`, `high`, `mid`): on one table of any block size built from a sorted entry list, the index
+    search followed by the block search returns the first entry `≥` the target — the composition of the two translated
+    loops is the model's table lookup -/
+theorem C10_code_table (bs : Nat) (es : List E) (hs : SortedE vlt es) (k : Bytes) (r : Nat) :
+    ((GenTable.indexLowerIdx (lastGe vlt ⟨k, r⟩) (buildTable bs es).blocks).bind fun i =>
+      ((buildTable bs es).blocks[i]?).bind fun b => (GenTable.dataLowerIdx (geKey vlt ⟨k, r⟩) b).bind (b[·]?))
+      = es.find? (geKey vlt ⟨k, r⟩) := by
+  rw [← TableTie.tableLookup_eq]
+  exact C10_table bs es hs k r
+
+/-- non-vacuity: the translated search on a concrete block -/
+example : GenTable.dataLowerIdx (fun (x : Nat) => decide (5 ≤ x)) [1, 3, 5, 7, 9] = some 2 ∧
+    GenTable.dataLowerIdx (fun (x : Nat) => decide (10 ≤ x)) [1, 3, 5, 7, 9] = none ∧
+    GenTable.indexLowerIdx (fun (x : Nat) => decide (0 ≤ x)) ([] : List Nat) = none := by decide
+
 #print axioms C10_table
 #print axioms C10_lookup_newest
 #print axioms C10_lookup_unique
 #print axioms C10_code_lookup_newest
 #print axioms C10_code_search_fold
+#print axioms C10_code_table
 end Props
